@@ -27,7 +27,7 @@ def cases(tier, seed):
     reps = 1 if tier == "quick" else 12
     for _ in range(reps):
         for kind, n, (lb, db) in itertools.product(["gauss", "fixed", "fixed+learn"], [1, 2, 5], BPAIRS):
-            for call_noise in ([False] if kind == "gauss" else [False, True]):
+            for call_noise in ([False] if kind == "gauss" else [False, True, "tiny"]):
                 yield {"kind": kind, "n": n, "lbatch": lb, "dbatch": db, "call_noise": call_noise, "seed": rnd.randrange(10**6)}
         for t, n, inter in itertools.product([2, 3], [1, 4], [True, False]):
             for rank in range(0, t + 1):
@@ -37,6 +37,9 @@ def cases(tier, seed):
         for n, with_noise in itertools.product([2, 4], [False, True]):
             yield {"kind": "list", "n": n, "call_noise": with_noise, "members": rnd.choice([["fixed", "fixed"], ["fixed+learn", "fixed"], ["fixed", "fixed+learn", "fixed"]]), "seed": rnd.randrange(10**6)}
         yield {"kind": "list", "n": 3, "call_noise": False, "members": ["gauss", "fixed", "gauss"], "seed": rnd.randrange(10**6)}
+        for members in (["fixed", "fixed", "fixed"], ["fixed", "fixed+learn", "fixed"]):
+            for none_at in ([1], [0], [2], [0, 2]):
+                yield {"kind": "list", "n": 3, "call_noise": True, "none_at": none_at, "members": members, "seed": rnd.randrange(10**6)}
         for kind, n, m, rounds, fb in itertools.product(["fixed", "fixed+learn"], [1, 4], [1, 3], [1, 2, 3], [[], [2]]):
             yield {"kind": "fantasy_lik", "lkind": kind, "n": n, "m": m, "rounds": rounds, "fbatch": fb, "seed": rnd.randrange(10**6)}
 
@@ -155,13 +158,20 @@ def _single(case, ctx, g):
     d = MVN(mean, C)
     full = torch.broadcast_shapes(torch.Size(lb), torch.Size(db))
     call = (util.rand(g, *full, n) + 0.02) if case["call_noise"] else None
+    if case["call_noise"] == "tiny":
+        # "the noise passed at call time in place of the stored fixed noise", exactly: also zero / below any stored-noise floor
+        call = call * torch.tensor([0.0, 1e-9, 1e-7, 1.0, 1e-12])[torch.arange(n) % 5]
     kw = {"noise": call} if call is not None else {}
     r = _R_single(lik, kind, fixed, call, mean.shape)
-    cls = kind + (":call" if call is not None else "")
+    cls = kind + (":call" if call is not None else "") + (":tiny" if case["call_noise"] == "tiny" else "")
     out = lik(d, **kw)
     add = out.covariance_matrix - C
     Rm = torch.diag_embed(r)
-    ctx.close("marginal_adds_R", add, Rm.expand(add.shape), "direct", cls=cls)
+    ctx.close("marginal_adds_R", add, Rm.expand(add.shape), (1e-10, 1e-10) if case["call_noise"] == "tiny" else "direct", cls=cls)
+    if case["call_noise"] == "tiny" and kind == "fixed":
+        # zero call-time noise: expected_log_prob / log_marginal / forward divide by it; only the marginal is decided here
+        ctx.cell({k: v_ for k, v_ in case.items() if k != "seed"}, nontrivial=n > 1)
+        return
     y = mean + util.randn(g, *db, n)
     v = torch.diagonal(C, dim1=-2, dim2=-1)
     elp = lik.expected_log_prob(y, d, **kw)
@@ -227,7 +237,11 @@ def _list(case, ctx, g):
         ds.append(MVN(util.randn(g, n), _spd(g, n)))
         calls.append(util.rand(g, n) + 0.02)
     ll = gpytorch.likelihoods.LikelihoodList(*liks)
-    kw = {"noise": calls} if case["call_noise"] else {}
+    none_at = case.get("none_at", [])
+    # a None entry: that member gets no call-time noise and uses its stored noise
+    passed = [None if i in none_at else c for i, c in enumerate(calls)]
+    calls = [None if i in none_at else c for i, c in enumerate(calls)]
+    kw = {"noise": passed} if case["call_noise"] else {}
     try:
         outs = ll(*ds, **kw)
     except Exception as e:
